@@ -35,6 +35,8 @@ def cont_enabled(d):
         ev += [['ka', i], ['upd', i], ['open', i, 'valid', 90], ['close', i], ['notif', i, 'other']]
     if r.next_time() is not None:
         ev.append(['tick', 0])
+    if r.pending_io():
+        ev.append(['io'])
     return ev
 
 
@@ -104,7 +106,10 @@ def run_case(case, explicit=False):
             ev = en[ch % len(en)]
             d.apply(ev)
             cont.append(ev)
-    # pure time: 10 x the longest timer
+    # pure time: 10 x the longest timer (deferred I/O completions are delivered first)
+    while r.pending_io():
+        r.deliver_io(0)
+        r.settle(fire_due=True)
     horizon = r.now + 10 * 240.0
     guard = 0
     while r.next_time() is not None and r.next_time() <= horizon and guard < 500:
